@@ -76,6 +76,8 @@ structure GState where
   tr : Track := {}           -- spec
   levels : List Nat := []    -- spec: levels so far, newest first
   flapping : Bool := false   -- spec: flapping flag
+  lastEv : Option Ev := none -- model: the last event delivered for the ID (= its event state in the topic)
+  restorePending : Bool := false  -- the task was restarted: the next message of the ID creates its state anew
 
 structure Out where
   id : String
@@ -151,6 +153,16 @@ def noteTrig (d : DS) (s : St) : DS :=
 
 def flapFn (conf : Conf) (k : FlapConsts) : FlapFn := goFlap k conf.low conf.high
 
+/-- `NewGroup` after a restart: `restoreEventState(id, first.Time(), …)` from the ID's event state in the topic.
+The spec side is untouched: for the property a restart is not an event of the ID's history. -/
+def restoreIfPending (d : DS) (k : FlapConsts) (g : GState) (t : Int) : DS × GState :=
+  if !g.restorePending then (d, g) else
+  let (level, stored, dur) := match g.lastEv with
+    | some e => (e.level, e.time, e.dur)
+    | none => (0, 0, 0)
+  let st := restoreEventState d.conf.cfg (flapFn d.conf k) t level stored dur
+  (addBr d (if level != 0 then "restore-non-ok" else "restore-ok"), { g with st := st, restorePending := false })
+
 def specFlag (conf : Conf) (k : FlapConsts) (g : GState) (cur : Nat) : Bool × List Nat :=
   let levels := cur :: g.levels
   if conf.cfg.useFlap then (specFlap k conf.low conf.high conf.cfg.history g.flapping levels, levels.take conf.cfg.history)
@@ -158,7 +170,7 @@ def specFlag (conf : Conf) (k : FlapConsts) (g : GState) (cur : Nat) : Bool × L
 
 def doPoint (d : DS) (k : FlapConsts) (gid : String) (p : Pt) : DS := Id.run do
   let c := d.conf.cfg
-  let g := d.group gid
+  let (d, g) := restoreIfPending d k (d.group gid) p.t
   let mut d := { d with sawInput := true }
   -- model
   let l := determineLevel c p (currentLevel g.st)
@@ -185,11 +197,11 @@ def doPoint (d : DS) (k : FlapConsts) (gid : String) (p : Pt) : DS := Id.run do
   match se with
   | some ev => d := { d with specOut := d.specOut.push { id := alertID gid, ev := ev } }
   | none => pure ()
-  return d.setGroup { g with st := st', tr := tr', levels := levels, flapping := fl }
+  return d.setGroup { g with st := st', tr := tr', levels := levels, flapping := fl, lastEv := e.orElse (fun _ => g.lastEv) }
 
 def doBatch (d : DS) (k : FlapConsts) (gid : String) (b : Batch) : DS := Id.run do
   let c := d.conf.cfg
-  let g := d.group gid
+  let (d, g) := restoreIfPending d k (d.group gid) b.tmax
   let mut d := { d with sawInput := true }
   let (st', e) := batchStep c (flapFn d.conf k) g.st b
   if b.pts.isEmpty then d := addBr d "b-empty"
@@ -223,6 +235,7 @@ def doBatch (d : DS) (k : FlapConsts) (gid : String) (b : Batch) : DS := Id.run 
   | none => d := { d with quiet := d.quiet + 1 }
   -- spec
   if b.pts.isEmpty then return d.setGroup { g with st := st' }
+  let g := { g with lastEv := e.orElse (fun _ => g.lastEv) }
   let cur := batchLevel c g.tr.level b.pts
   let (fl, levels) := specFlag d.conf k g cur
   let (tr', se) := specBatch c g.tr b fl
@@ -297,6 +310,9 @@ def judge (_id : String) (lines : Array String) : Verdict := Id.run do
       let some tmax := tmax.toInt? | return .badop l
       let some pts := parseBatchPts pts | return .badop l
       d := doBatch d k gid { tmax := tmax, pts := pts }
+    | ["restart"] =>
+      d := { d with groups := d.groups.map (fun g => { g with restorePending := true }) }
+      d := addBr d "restart"
     | ["events"] =>
       let some observed := parseList obs | return .badop l
       let sp := d.specOut.toList.map renderEv
